@@ -109,7 +109,9 @@ fn boot(w_scratch: &PathBuf) -> DaemonFuture {
 				world::with(|w| {
 					w.accounts = srv.verif_accounts().iter().map(|(k, v)| (k.clone(), v.clone())).collect();
 					w.accounts.sort_by(|a, b| a.0.cmp(&b.0));
-					w.push(Ev::BootOk { n });
+					let ids: Vec<String> = w.plan.config.certificates.iter().map(toml_emit::cert_id).collect();
+					let pairs = ids.iter().map(|id| std::rc::Rc::new(super::snap::pair(w, id))).collect();
+					w.push(Ev::BootOk { n, pairs });
 					let snaps = super::snap::accounts(w);
 					w.account_snaps.push((w.seq, "boot".to_string(), snaps));
 				});
@@ -221,8 +223,14 @@ fn run_ops(plan: &Plan, outcomes: &mut Vec<String>) -> Result<(), String> {
 				let want = *attempts;
 				let mut stop = |w: &World| -> Option<String> {
 					let done = ids.iter().all(|id| w.attempts_done.get(id).copied().unwrap_or(0) >= base.get(id).copied().unwrap_or(0) + want);
+					// loop guard: a certificate that renews continuously (e.g. the CA issues
+					// already-expired certificates) must not spin until the event cap while another
+					// one sleeps for months
+					let spinning = w.attempts_done.iter().any(|(id, n)| ids.contains(id) && *n >= base.get(id).copied().unwrap_or(0) + want + 12);
 					if done {
 						Some("attempts".to_string())
+					} else if spinning {
+						Some("attempt_cap".to_string())
 					} else {
 						None
 					}
@@ -357,6 +365,8 @@ pub fn run_plan(plan: &Plan) -> RunResult {
 	unsafe {
 		libc_umask(plan.world.umask);
 	}
+	async_lock::verif_set_lock_starved(plan.sched.lock_starved);
+	async_lock::verif_set_clock(virtual_now_ns);
 	let mut w = World::new(plan.clone(), scratch.clone());
 	for (i, c) in plan.cas.iter().enumerate() {
 		w.cas.push(Ca::new(i, &c.host, c.knobs.clone()));
@@ -410,4 +420,12 @@ extern "C" {
 }
 unsafe fn libc_umask(m: u32) {
 	umask(m);
+}
+
+fn virtual_now_ns() -> u64 {
+	if world::active() {
+		world::with(|w| w.mono as u64)
+	} else {
+		0
+	}
 }
